@@ -355,7 +355,7 @@ class Interp:
                   "tuple", "dict", "getattr", "hasattr", "sorted", "range",
                   "bool", "callable", "min", "max", "iter", "type",
                   "reversed", "enumerate", "zip", "set", "frozenset", "any",
-                  "all", "sum", "abs", "ord", "chr", "id", "hash"}
+                  "all", "sum", "abs", "ord", "chr", "id", "hash", "super"}
 
     def __init__(self, fi, program, inline=None, loop_policy=None,
                  noreturn=None, assume=None, max_inline=3, bind=None,
@@ -1343,6 +1343,9 @@ class Interp:
                     recv = self.eval(f.value, env)
                 elif c.how == "basecall":
                     recv, args = args[0], args[1:]
+                elif c.how == "super" and fi.params:
+                    recv = self.eval(ast.Name(id=fi.params[0],
+                                              ctx=ast.Load()), env)
                 elif c.how == "ctor":
                     recv = self.fresh("new " + c.fn.cls.name)
                 r = self.inline_call(c.fn, recv, args, kws, None, node)
